@@ -68,8 +68,24 @@ def rule_C14(env):
             if LEAKY.search(p or ""):
                 res.add("leak-call", "%s/%s" % (k.split("::")[-1], (p or "").split("::")[-1]), "%s calls %s: memory is deliberately leaked" % (k, p), env.loc(k))
     for k, b in prog.bodies.items():
-        if b["kind"] == "static" and ("StackObject" in b["ret_ty"] or "Generator" in b["ret_ty"] or "state::State" in b["ret_ty"]):
-            res.add("static", k.split("::")[-1], "static %s: %s keeps simulated objects alive for the whole process" % (k, b["ret_ty"]), env.loc(k))
+        if "tests::" in k:
+            continue
+        ty = b["ret_ty"]
+        holds = "StackObject" in ty or "generator::Generator" in ty or "state::State" in ty
+        if holds and (b["kind"] == "static" or (b["kind"] in ("const", "fn") and ("LocalKey" in ty or k.split("::")[-1] in ("__init", "__getit", "__rust_std_internal_init_fn")))):
+            res.add("static", k.split("::")[-2] if k.split("::")[-1].startswith("__") else k.split("::")[-1],
+                    "process-/thread-wide storage %s: %s keeps simulated objects alive beyond reset()/drop of the generator" % (k, ty), env.loc(k))
+    # thread-locals referenced from generation code whose payload type holds handles
+    reach_all = cg.reachable([prog.find("generator::Generator::generate"), prog.find("generator::Generator::generate_from_arbitrary")])
+    for k in sorted(reach_all):
+        for s in cg.statics.get(k, ()):
+            if s.startswith("thread_local:"):
+                res.add("static", "tls/%s" % s.split("::")[-1], "%s uses thread-local %s: objects stored there outlive the generator" % (k, s), env.loc(k))
+        for (_, p, t) in cg.external_calls([k]):
+            if re.search(r"std::thread::LocalKey::<T>::(with|try_with|set|replace|take)$", p or ""):
+                targs = " ".join((t["f"].get("args") or []) + ((t["f"].get("res") or {}).get("args") or []))
+                res.add("static", "tls-access/%s" % k.split("::")[-1],
+                        "%s stores into / reads thread-local storage (%s): memory held there is not released by reset() or drop" % (k, targs[:120]), env.loc(k))
     res.floor("leaves", 300, "emission leaves")
     res.floor("calls", 500, "call sites")
     res.coverage = {"explanation": "ownership-shape rules: (a) StackObjectRef = Rc<RefCell<StackObject>> is reachable from its own payload type (variants %s) and the interpreter's "
